@@ -315,12 +315,14 @@ def universes(family, tier, seed):
         for pat in _it.product('AOE', repeat=3):
             for shape, n in (('chain', 8), ('layers', [3, 3]), ('fan', 8)):
                 jobs.append({'family': family, 'shape': shape, 'n': n, 'pattern': [K[c] for c in pat]})
-        big = [('chain', 600, ['OOO', 'EEO', 'AOE', 'OEE', 'EOA']), ('layers', [20, 30], ['OOO', 'EOE', 'AEO']),
+        big = [('chain', 600, ['OOO', 'EEO', 'AOE', 'OEE', 'EOA']), ('chain', 2000, ['OOO', 'OEE']), ('layers', [20, 30], ['OOO', 'EOE', 'AEO']),
                ('fan', 600, ['OOO', 'AEO', 'EEO', 'OEO']),
-               ('etail', [2, 48], ['OOO', 'AOO']), ('etail', [1, 600], ['OOO']), ('etail', [3, 20], ['OOO'])]
+               ('etail', [2, 48], ['OOO', 'AOO']), ('etail', [1, 600], ['OOO']), ('etail', [3, 20], ['OOO']),
+               ('echain', 300, ['OOO']), ('elayers', [2, 48], ['OOO', 'AOO']), ('elayers', [3, 30], ['OOO'])]
         if tier == 'thorough':
             big += [('chain', 4000, ['OOO', 'EEO', 'AOE']), ('layers', [40, 100], ['OOO', 'EOE']), ('fan', 4000, ['OOO', 'AEO']),
-                    ('chain', 1500, ['OEE', 'EOA', 'AEO', 'OEO']), ('layers', [100, 12], ['OEO', 'AOE'])]
+                    ('chain', 1500, ['OEE', 'EOA', 'AEO', 'OEO']), ('layers', [100, 12], ['OEO', 'AOE']),
+                    ('echain', 3000, ['OOO']), ('elayers', [2, 200], ['OOO'])]
         for shape, n, pats in big:
             for pat in pats:
                 jobs.append({'family': family, 'shape': shape, 'n': n, 'pattern': [K[c] for c in pat]})
@@ -409,7 +411,7 @@ def universes(family, tier, seed):
     # a seeded sample of the 5184 four-job graphs from the fully symbolic well-formed history (the complete enumeration stops at 3)
     rng4 = random.Random(7919 * seed + 5)
     inst4 = list(H.all_instances(4))
-    for nodes, edges in rng4.sample(inst4, 600 if tier == 'thorough' else 60):
+    for nodes, edges in rng4.sample(inst4, 600 if tier == 'thorough' else 20):
         jobs.append({'family': 'H-EVAL', 'nodes': nodes, 'edges': edges, 'mode': 'ident', 'max_states': 1500000, 'tag': 'sym4'})
     if tier == 'thorough':
         jobs += built_jobs('H-EVAL', tier, seed, n4=-1, chain=-1, chain_max=6, rand=300, modes=('ident',))
